@@ -124,6 +124,20 @@ def gen_jobs(prop, tier, seed):
             for m in w["methods"]:
                 if m["body"] == "leaf" and rng.random() < 0.7:
                     m["body"] = "next"
+            if q % 3 == 0 and not any(m["kwn"] for m in w["methods"]):
+                # call_next with *other* arguments (other classes, possibly another arity): the continuation
+                # for a type tuple the method was not entered with
+                cs = worlds.concrete(w)
+                argmap = {f"a{j}": rng.choice(cs) for j in range(1, 4)}
+                arities = sorted({len(m["pos"]) for m in w["methods"]})
+                for m in w["methods"]:
+                    if rng.random() < 0.5:
+                        k = rng.choice(arities)
+                        m["body"] = {"k": "next_with", "pos": [rng.choice(list(argmap)) for _ in range(k)]}
+                add(w, calls, "rndw")
+                jobs[-1]["argmap"] = argmap
+                jobs[-1]["budget"] = rng.randint(1, 3)
+                continue
         add(w, calls, "rnd")
     return jobs, exhaustive_parts
 
@@ -165,6 +179,21 @@ def run(prop, tier, seed, replay=None):
     jobs, parts = gen_jobs(prop, tier, seed)
     jobs += cjobs
     cases = pool.run(workers.static_cases, jobs)
+    if prop == "C01":
+        # value-dependent annotations (Literal / Dependent / unions of them, keyword-only, lookup-table shapes):
+        # the same worlds as C10, judged for the accepts.* clauses only
+        from . import c10
+
+        djobs, _ = c10.gen_jobs(tier, seed), None
+        dres = pool.run(workers.dep_cases, djobs)
+        for c in dres:
+            if "skip" in c:
+                continue
+            c["id"] = "C01-" + c["id"]
+            c["props"] = ["C01"]
+            for st in c["steps"]:
+                st["obs"].setdefault("resolve", {"kind": "skip", "m": ""})
+            cases.append(c)
     skipped = [c for c in cases if "skip" in c]
     harness_bugs = [c for c in skipped if c["skip"].startswith("harness")]
     if harness_bugs:
